@@ -436,6 +436,59 @@ def _spec_checks(api):
             return close(got, ref), {"converted_from_" + inp["kind"]: got}, {"converted_from_list": ref}
         checks[f"point_iterables_{LOW[a]}_{LOW[b]}"] = (gen_i, pred_i)
 
+    ANGLES = ["pi/5", "pi/8", "3*pi/8", "pi/10", "pi/12", "2*pi/5", "pi/7", "5*pi/12", "3*pi/5", "7*pi/8"]
+
+    def exact_coords(rng, a):
+        """exact coordinates (strings, so that a replay file can carry them) whose sines / cosines are nested radicals"""
+        r, t, f = str(rng.choice([1, 2, 3, 5])), rng.choice(ANGLES), rng.choice(ANGLES + ["-" + x for x in ANGLES[:4]])
+        if a == 2:
+            return [r, t, f]
+        if a == 1:
+            return [r, f, str(rng.choice([-2, 1, 3]))]
+        return [f"{r}*sin({t})*cos({f})", f"{r}*sin({t})*sin({f})", f"{r}*cos({t})"]
+
+    for (a, b) in NONTRIVIAL:
+        def gen_x(rng, a=a, b=b):
+            return {"coords_exact": exact_coords(rng, a), "components": [rng.choice([-3, -1, 2, 5]) for _ in range(3)],
+                    "via": [c for c in range(3) if c not in (a, b)][0]}
+
+        def pred_x(inp, a=a, b=b):
+            p = [sp.sympify(x) for x in inp["coords_exact"]]
+            c = [sp.Integer(x) for x in inp["components"]]
+            unit = lambda k: {E[j]: 1 if j == k else 0 for j in range(3)}
+            direct = api.cvec(a, b, c, p, E)          # its base vectors must be attached to convert_point(p, b) itself
+            got = [num(direct.xreplace(unit(k))) for k in range(3)]
+            m = inp["via"]
+            hop1 = api.cvec(a, m, c, p, E)
+            c1 = [hop1.xreplace(unit(k)) for k in range(3)]
+            p1 = api.cpoint(a, m, p)
+            hop2 = api.cvec(m, b, c1, p1, E)
+            two = [num(hop2.xreplace(unit(k))) for k in range(3)]
+            pf = [num(x) for x in p]
+            newp = [num(e) for e in api.cpoint(a, b, p)]
+            fa, fb = m_frame(a, pf), m_frame(b, newp)
+            cart_want = [sum(inp["components"][i] * fa[i][k] for i in range(3)) for k in range(3)]
+            cart_got = [sum(got[i] * fb[i][k] for i in range(3)) for k in range(3)]
+            return close(cart_got, cart_want) and close(two, got), {"direct_components": got, "two_hop_components": two, "cartesian_components": cart_got}, \
+                {"cartesian_components": cart_want, "two_hop": "equal to direct"}
+        checks[f"convert_vector_exact_{LOW[a]}_{LOW[b]}"] = (gen_x, pred_x)
+
+    for (a, b) in PAIRS:
+        def gen_s(rng, a=a):
+            return {"coords": gen_regular(rng, a), "components": [away(rng), away(rng), away(rng)],
+                    "scale": rng.choice(["1e-15", "1e-20", "1e+15", "3e-13", "1/10**18", "1/10**25"])}
+
+        def pred_s(inp, a=a, b=b):
+            unit = lambda k: {E[j]: 1 if j == k else 0 for j in range(3)}
+            sc = sp.sympify(inp["scale"]) if "/" in inp["scale"] else sp.Float(inp["scale"])
+            p = [sp.Float(v) for v in inp["coords"]]
+            base = api.cvec(a, b, [sp.Float(v) for v in inp["components"]], p, E)
+            scaled = api.cvec(a, b, [sp.Float(v) * sc for v in inp["components"]], p, E)
+            want = [num(base.xreplace(unit(k))) for k in range(3)]
+            got = [num(scaled.xreplace(unit(k)) / sc) for k in range(3)]
+            return close(got, want), {"components_of_scaled_vector_divided_by_scale": got}, {"components_of_the_order_one_vector": want}
+        checks[f"convert_vector_scaling_{LOW[a]}_{LOW[b]}"] = (gen_s, pred_s)
+
     for a in range(3):
         def gen_b(rng, a=a):
             return {"coords": gen_regular(rng, a)}
